@@ -326,8 +326,10 @@ INIT = "vt::InIt<"
 ARCH = "vt::Arch"
 # pure integer -> scalar helpers (callers pass template constants and loop counters bounded by them, never window
 # indices): exact integer arithmetic inside them is constant propagation, not index arithmetic
-INT_HELPERS = ("bspline::internal::faculty<", "bspline::internal::facultyRatio<",
-               "bspline::internal::binomialCoefficient<")
+# Exact integer arithmetic (constant propagation) is admitted in the numeric helper layers: their integers are template
+# constants and loop counters bounded by template constants (factorials, binomials, prefactor tables), never grid-sized
+# quantities - the order-type argument for index code is not needed (and not claimed) there.
+INT_HELPERS = ("bspline::internal::", "bspline::operators::", "bspline::interpolation::internal::")
 
 
 class RawBytes:
@@ -397,8 +399,9 @@ class NotFn:
 
 
 class Closure:
-    def __init__(self, callop, caps):
+    def __init__(self, callop, caps, this=None):
         self.callop, self.caps = callop, caps
+        self.this = this   # the enclosing object of a lambda written in a member function ([this] / [&] / [=] capture)
 
     def copy(self):
         return self
@@ -961,6 +964,10 @@ class Interp:
                 dc = [d for d in self.methods.get(rec["id"], ()) if d.get("defaultctor") and not d.get("deleted")]
                 if dc:
                     return Arr([self.construct(dc[0], []) for _ in range(n)])
+            if et.startswith(("std::array<", "std::vector<", "std::optional<", "std::shared_ptr<")):
+                # nested containers: each element is default-initialised in turn (an array of arrays of indeterminate
+                # scalars, not an indeterminate array)
+                return Arr([self.default_value(et) for _ in range(n)])
             return Arr([UNINIT] * n)
         if t0.startswith("std::shared_ptr<"):
             return SharedPtr(None)
@@ -1078,7 +1085,10 @@ class Interp:
         return NULLPTR
 
     def ev_CXXThisExpr(self, e):
-        return self.frames[-1]["__this__"]
+        t = self.frames[-1]["__this__"]
+        if isinstance(t, Closure) and t.this is not None:
+            return t.this   # `this` inside a lambda body is the captured enclosing object
+        return t
 
     def ev_StringLiteral(self, e):
         return "str"
@@ -1180,6 +1190,8 @@ class Interp:
                 return int(d.get("value"))
             if d["k"] == "fn":
                 return ("fnref", d["id"])
+            if d["k"] == "var" and d.get("ival") is not None:
+                return int(d["ival"])   # a const integral variable with a constant initialiser (static constexpr member)
         raise OutOfFragment("reference to %s" % (d["qn"] if d else e.get("n")))
 
     def ev_MemberExpr(self, e):
@@ -1227,8 +1239,9 @@ class Interp:
             return NULLPTR
         if ck == "BitCast":
             v = self.rv(c)
-            if isinstance(v, Pointer) or v is NULLPTR:
-                return v   # pointer converted to const void* for an address comparison
+            if isinstance(v, (Pointer, Obj)) or v is NULLPTR:
+                return v   # pointer (`this` is represented by the object itself) converted to const void* for an
+                #            address comparison
             if isinstance(v, Iter) and not v.rev:
                 el = self.T(c).replace("const ", "").replace("*", "").strip()
                 if el in _SIZEOF:
@@ -1452,7 +1465,10 @@ class Interp:
 
     # -- lambdas -------------------------------------------------------------------------
     def ev_LambdaExpr(self, e):
-        return Closure(e["callop"], None)
+        t = self.frames[-1].get("__this__") if self.frames else None
+        if isinstance(t, Closure):
+            t = t.this   # a lambda nested in a lambda
+        return Closure(e["callop"], None, this=t)
 
     # -- new ------------------------------------------------------------------------------
     def ev_CXXNewExpr(self, e):
